@@ -10,6 +10,7 @@ import (
 	"strings"
 
 	pgs "github.com/lyft/protoc-gen-star/v2"
+	"google.golang.org/protobuf/encoding/protowire"
 	"google.golang.org/protobuf/proto"
 	descriptor "google.golang.org/protobuf/types/descriptorpb"
 	plugin_go "google.golang.org/protobuf/types/pluginpb"
@@ -34,6 +35,9 @@ type c13In struct {
 	Features *uint64  `json:"features"`
 	Ops      []string `json:"ops"`
 	BiDi     bool     `json:"bidi"`
+	// Late: that many trailing modules are registered only after the first operation (which is then
+	// an AST() call): registration is open until the first Render. Harness-only.
+	Late int `json:"late,omitempty"`
 }
 type evJ struct {
 	T        string  `json:"t"`
@@ -166,6 +170,11 @@ func (m *recMod) Execute(targets map[string]pgs.File, pkgs map[string]pgs.Packag
 	// was the AST built bidirectionally? (every file declares N with a field of message type M)
 	for _, p := range pkgs {
 		for _, f := range p.Files() {
+			// the descriptors are those of the request, unknown fields (options of extensions that are
+			// not linked into the plugin) included
+			if len(f.Descriptor().GetOptions().ProtoReflect().GetUnknown()) == 0 {
+				ts = append(ts, "\x00unknown fields of "+f.Name().String()+" were dropped")
+			}
 			for _, msg := range f.AllMessages() {
 				if len(msg.Dependents()) > 0 {
 					ev.Bidi = true
@@ -279,6 +288,8 @@ func (c13Engine) Run(raw json.RawMessage) (interface{}, error) {
 		if len(f[1]) > 0 {
 			fd.Package = proto.String(f[1].String())
 		}
+		fd.Options = &descriptor.FileOptions{}
+		fd.Options.ProtoReflect().SetUnknown(protowire.AppendVarint(protowire.AppendTag(nil, 50001, protowire.VarintType), 7))
 		req.ProtoFile = append(req.ProtoFile, fd)
 	}
 	data, _ := proto.Marshal(req)
@@ -317,13 +328,17 @@ func (c13Engine) Run(raw json.RawMessage) (interface{}, error) {
 		g.RegisterPostProcessor(kp)
 	}
 	var insts []*recMod
-	for i, m := range in.Mods {
+	late := in.Late
+	if late > len(in.Mods) || len(in.Ops) == 0 || in.Ops[0] != "ast" {
+		late = 0
+	}
+	register := func(i int, m modJ) {
 		if m.Same != nil && *m.Same < len(insts) {
 			rm := insts[*m.Same]
 			rm.pos = append(rm.pos, i)
 			insts = append(insts, rm)
 			g.RegisterModule(rm)
-			continue
+			return
 		}
 		rm := &recMod{idx: i, pos: []int{i}, name: m.Name.String(), log: log, md: md, pushes: (i + len(m.Arts)) % 3}
 		for _, a := range m.Arts {
@@ -332,8 +347,16 @@ func (c13Engine) Run(raw json.RawMessage) (interface{}, error) {
 		insts = append(insts, rm)
 		g.RegisterModule(rm)
 	}
+	for i, m := range in.Mods[:len(in.Mods)-late] {
+		register(i, m)
+	}
 	var first pgs.AST
-	for _, op := range in.Ops {
+	for k, op := range in.Ops {
+		if k == 1 {
+			for i, m := range in.Mods[len(in.Mods)-late:] {
+				register(len(in.Mods)-late+i, m)
+			}
+		}
 		if op == "ast" {
 			a := g.AST()
 			ev := newEv("ast")
@@ -415,6 +438,9 @@ func (c13Engine) Gen(g *Gen) {
 				m.Arts = append(m.Arts, legal(i*10+j, &have))
 			}
 			in.Mods = append(in.Mods, m)
+		}
+		if nm > 0 && len(ops) > 1 && ops[0] == "ast" && g.Rng.Intn(2) == 0 { // some modules are registered after a first AST()
+			in.Late = 1 + g.Rng.Intn(nm)
 		}
 		if nm > 0 && g.Rng.Intn(5) == 0 { // the same instance registered a second time
 			j := g.Rng.Intn(nm)
